@@ -21,6 +21,7 @@ import Driver.Txn
 import Driver.Typed
 import Driver.DetachHold
 import Driver.IoRead
+import Driver.Routing
 
 structure DState where
   sess : Amqp.Session.St := Amqp.Session.init 0 0 0
@@ -34,6 +35,7 @@ structure DState where
   conn : Driver.Conn.DSt := Driver.Conn.init
   slife : Amqp.SessLife.St := Amqp.SessLife.mapped0
   limits : Driver.Limits.DSt := {}
+  routing : Amqp.Routing.Tab := Amqp.Routing.Tab.empty
 
 def handle (st : DState) (line : String) : DState × String :=
   match Driver.words line with
@@ -57,6 +59,10 @@ def handle (st : DState) (line : String) : DState × String :=
   | "M" :: ws =>
     match Driver.Reasm.step st.reasm ws with
     | some (s, out) => ({ st with reasm := s }, out)
+    | none => (st, "bad-op")
+  | "U" :: ws =>
+    match Driver.Routing.step st.routing ws with
+    | some (s, out) => ({ st with routing := s }, out)
     | none => (st, "bad-op")
   | "H" :: ws =>
     match Driver.Handles.step st.links ws with
